@@ -306,8 +306,7 @@ static std::map<unsigned, Pending> g_pending;
 //-----------------------------------------------------------------------------------------
 int main()
 {
-	char tmpl[] = "/tmp/verif_logh_XXXXXX";
-	g_dir = mkdtemp(tmpl);
+	g_dir = scratch_dir("logh");
 	vclock::sleep_hook = on_sleep;
 	Logger *lg(0);
 	std::string path;
